@@ -31,7 +31,7 @@ RULE = (
     "(replica, op kind, fault kind, graph shape class); non-trivial = at least one reorder/duplicate fault fired and >=2 replicas"
 )
 STATE_MEASURE = "(layer, #nodes, tree|cyclic, canonical degree sequence, #dups) for abstract; (layer, multiset of frame kinds, #replicas) for frames"
-PROBES = ["route_replaced_by_shorter", "dup_link_delivered", "query_on_partial_graph", "disconnected_pair_reported", "builtin_graph_replayed", "frames_convergence_checked", "two_hop_oracle_checked"]
+PROBES = ["origin_checked", "route_replaced_by_shorter", "dup_link_delivered", "query_on_partial_graph", "disconnected_pair_reported", "builtin_graph_replayed", "frames_convergence_checked", "two_hop_oracle_checked"]
 REAL_VS_STUB = "real: beyond.utils.node.Node, frames/center/orient/stations registries, propagators; stub: none (EOP = zeros by policy 'pass'); model: BFS on explicit adjacency, two-hop composition through pristine nodes"
 ASSUMPTIONS = ["tree space on 8 nodes is sampled, not enumerated (thorough tier additionally sweeps all labelled trees on <=5 nodes with all orders)", "numpy/sgp4 are trusted"]
 SAMPLED_ONLY = []
@@ -109,13 +109,27 @@ _INERTIAL = ["EME2000", "MOD", "TOD", "TEME", "GCRF", "CIRF", "G50"]
 _BUILTIN = ["EME2000", "MOD", "TOD", "TEME", "PEF", "ITRF", "TIRF", "CIRF", "GCRF", "G50"]
 
 
+def _topo_shuffle(rng, msgs):
+    """A random order of the messages in which every message comes after the ones it depends on."""
+    left = list(range(len(msgs)))
+    done = set()
+    order = []
+    while left:
+        ready = [j for j in left if all(d in done for d in msgs[j].get("deps", []))]
+        j = rng.choice(ready)
+        left.remove(j)
+        order.append(j)
+        done.add(msgs[j]["name"])
+    return order
+
+
 def _gen_frames(rng):
     nrep = rng.randint(2, 3)
-    nmsg = rng.randint(2, 5)
+    nmsg = rng.randint(2, 6)
     msgs = []
     used_body = set()
     for j in range(nmsg):
-        kind = rng.choice(["station", "station", "orbframe", "orbframe", "body"])
+        kind = rng.choice(["station", "station", "orbframe", "orbframe", "body", "frame"])
         if kind == "body":
             name = rng.choice(["Moon", "Sun"])
             if name in used_body:
@@ -124,42 +138,63 @@ def _gen_frames(rng):
                 used_body.add(name)
                 msgs.append({"op": "body", "name": name})
                 continue
+        if kind == "frame":
+            # a user-registered frame under a new name over an existing orientation
+            msgs.append({"op": "frame", "name": f"Frm{j}", "orient": rng.choice(_PARENTS + ["EME2000", "TEME"])})
+            continue
         if kind == "station":
-            msgs.append(
-                {
-                    "op": "station",
-                    "name": f"Sta{j}",
-                    "lat": round(rng.uniform(-89, 89), 3),
-                    "lon": round(rng.uniform(-180, 180), 3),
-                    "alt": round(rng.uniform(-300, 5000), 1),
-                    "parent": rng.choice(_PARENTS),
-                }
-            )
+            parents = _PARENTS + [m["name"] for m in msgs if m["op"] == "frame" and m["orient"] in _PARENTS]
+            parent = rng.choice(parents)
+            msg = {
+                "op": "station",
+                "name": f"Sta{j}",
+                "lat": round(rng.uniform(-89, 89), 3),
+                "lon": round(rng.uniform(-180, 180), 3),
+                "alt": round(rng.uniform(-300, 5000), 1),
+                "parent": parent,
+            }
+            if parent not in _PARENTS:
+                msg["deps"] = [parent]
+            msgs.append(msg)
         else:
-            msgs.append(
-                {
-                    "op": "orbframe",
-                    "name": f"Orb{j}",
-                    "orient": rng.choice([None, "QSW", "TNW"]),
-                    "parent": rng.choice(_INERTIAL),
-                    "frame": rng.choice(_INERTIAL),
-                    "kep": [
-                        rng.uniform(6.8e6, 4.2e7),
-                        rng.uniform(0.0005, 0.3),
-                        rng.uniform(0.05, 3.0),
-                        rng.uniform(0, 6.28),
-                        rng.uniform(0, 6.28),
-                        rng.uniform(0, 6.28),
-                    ],
-                    "src": rng.choice(["kepler", "kepler", "ephem", "static"]),
-                }
-            )
+            msg = {
+                "op": "orbframe",
+                "name": f"Orb{j}",
+                "orient": rng.choice([None, "QSW", "TNW"]),
+                "parent": rng.choice(_INERTIAL),
+                "frame": rng.choice(_INERTIAL),
+                "kep": [
+                    rng.uniform(6.8e6, 4.2e7),
+                    rng.uniform(0.0005, 0.3),
+                    rng.uniform(0.05, 3.0),
+                    rng.uniform(0, 6.28),
+                    rng.uniform(0, 6.28),
+                    rng.uniform(0, 6.28),
+                ],
+                "src": rng.choice(["kepler", "kepler", "ephem", "static"]),
+            }
+            # a reference object expressed in a frame which is not centred on the Earth
+            stas = [m["name"] for m in msgs if m["op"] == "station"]
+            r = rng.random()
+            if stas and r < 0.25:
+                msg["frame"] = rng.choice(stas)
+                msg["src"] = "static"
+                msg["orient"] = None
+                msg["cart"] = [rng.uniform(-2e4, 2e4), rng.uniform(-2e4, 2e4), rng.uniform(1e3, 3e4), rng.uniform(-10, 10), rng.uniform(-10, 10), rng.uniform(-5, 5)]
+                msg["deps"] = [msg["frame"]]
+            elif "Moon" in used_body and r < 0.5:
+                msg["frame"] = "Moon"
+                msg["kep"][0] = rng.uniform(1.9e6, 6e6)
+                msg["kep"][1] = rng.uniform(0.001, 0.05)
+                msg["src"] = rng.choice(["kepler", "static"])
+                msg["deps"] = ["Moon"]
+            msgs.append(msg)
     names = [m["name"] for m in msgs]
     per_rep = []
     for r in range(nrep):
         order = list(range(len(msgs)))
         if r > 0:
-            rng.shuffle(order)
+            order = _topo_shuffle(rng, msgs)
         seq = [dict(msgs[j], rep=r) for j in order]
         for _ in range(rng.randint(1, 4)):
             pool = _BUILTIN + names
@@ -470,6 +505,21 @@ def _mk_date(node, mjd):
     return node.Date(float(mjd), scale="UTC")
 
 
+def _ref_object(node, msg, kn):
+    """The reference object (orbit, ephemeris or static state) an orbit-attached frame is built from."""
+    date = _mk_date(node, kn["date_mjd"])
+    Kepler = node.mod("beyond.propagators.kepler").Kepler
+    if msg.get("cart") is not None:
+        return node.StateVector(msg["cart"], date, "cartesian", msg["frame"])
+    orb = node.Orbit(msg["kep"], date, "keplerian", msg["frame"], Kepler())
+    if msg["src"] == "ephem":
+        td = node.timedelta
+        return orb.ephem(start=date - td(minutes=30), stop=td(minutes=60), step=td(minutes=3))
+    if msg["src"] == "static":
+        return orb.copy(form="cartesian").as_statevector()
+    return orb
+
+
 def _register(node, msg, kn):
     """Deliver one registration message on a node (inside `with node`)."""
     if msg["op"] == "station":
@@ -479,17 +529,12 @@ def _register(node, msg, kn):
     if msg["op"] == "body":
         ss = node.mod("beyond.env.solarsystem")
         return ss.get_frame(msg["name"])
+    if msg["op"] == "frame":
+        orient = node.mod("beyond.frames.orient")
+        center = node.mod("beyond.frames.center")
+        return node.frames.Frame(msg["name"], getattr(orient, msg["orient"]), center.Earth)
     if msg["op"] == "orbframe":
-        date = _mk_date(node, kn["date_mjd"])
-        Orbit = node.Orbit
-        Kepler = node.mod("beyond.propagators.kepler").Kepler
-        orb = Orbit(msg["kep"], date, "keplerian", msg["frame"], Kepler())
-        ref = orb
-        if msg["src"] == "ephem":
-            td = node.timedelta
-            ref = orb.ephem(start=date - td(minutes=30), stop=td(minutes=60), step=td(minutes=3))
-        elif msg["src"] == "static":
-            ref = orb.copy(form="cartesian").as_statevector()
+        ref = _ref_object(node, msg, kn)
         kw = {"parent": node.frames.get_frame(msg["parent"])}
         if msg["orient"]:
             kw["orientation"] = msg["orient"]
@@ -539,9 +584,11 @@ def _run_frames(plan, ctx):
 
     for o in plan["ops"]:
         r = o["rep"] % nrep
-        if o["op"] in ("station", "orbframe", "body"):
+        if o["op"] in ("station", "orbframe", "body", "frame"):
             if o["name"] in registered[r]:
                 continue  # only *new* names are covered by the statement
+            if any(d not in registered[r] for d in o.get("deps", [])):
+                continue  # (a minimised plan may have lost the message this one depends on)
             existing = _BUILTIN + registered[r]
             # snapshot a sample of conversions between frames that already exist
             pairs = [(a, b) for a in existing[-4:] + existing[:3] for b in existing[-4:] + existing[:3] if a != b][:20]
@@ -562,6 +609,29 @@ def _run_frames(plan, ctx):
             ctx.ev(f"rep{r}", "register", o["op"], o["name"])
             for a, b in pairs:
                 conv(r, a, b, f"after registering {o['name']}")
+            if o["op"] == "orbframe":
+                # the frame attached to an object has that object at its origin: the link goes to the centre
+                # of the frame the object is expressed in, whatever was registered before
+                ctx.checks += 1
+                ctx.probe("origin_checked")
+                with nodes[r]:
+                    ref = _ref_object(nodes[r], o, kn)
+                    date = _mk_date(nodes[r], kn["date_mjd"])
+                    st = ref.propagate(date) if hasattr(ref, "propagate") else ref
+                    try:
+                        at = np.array(st.copy(form="cartesian", frame=o["name"]), dtype=float)
+                        scale = float(np.linalg.norm(np.array(st.copy(form="cartesian"), dtype=float)[:3]))
+                        err = None
+                    except Exception as e:  # noqa
+                        at, err = None, e
+                if err is not None:
+                    ctx.violate("valid-chain", {"kind": "connected_conversion_failed", "layer": "frames"}, f"rep {r}: converting the reference object of {o['name']} into its own frame raised {type(err).__name__}: {err}")
+                elif np.linalg.norm(at[:3]) > 1e-6 + 1e-9 * scale:
+                    ctx.violate(
+                        "valid-chain",
+                        {"kind": "frame_origin_not_on_its_object", "layer": "frames", "ref_frame_kind": "builtin" if o["frame"] in _BUILTIN else "registered"},
+                        f"rep {r}: frame {o['name']} is attached to an object given in frame {o['frame']}, but that object is {np.linalg.norm(at[:3]):.3e} m away from the origin of its own frame",
+                    )
             ctx.ops_done += 1
         elif o["op"] == "convert":
             s, t = o["src"], o["dst"]
@@ -621,8 +691,14 @@ def _run_frames(plan, ctx):
                 n = Node(f"oracle-{name}")
                 with n:
                     n.config.update({"eop": {"missing_policy": "pass"}})
-                    if name in msgs_by_name:
-                        _register(n, msgs_by_name[name], kn)
+
+                    def reg(nm):
+                        if nm in msgs_by_name:
+                            for d in msgs_by_name[nm].get("deps", []):
+                                reg(d)
+                            _register(n, msgs_by_name[nm], kn)
+
+                    reg(name)
                 oracle[name] = n
             return oracle[name]
 
